@@ -178,7 +178,7 @@ def run(tier="quick", seed=0, replay_path=None):
             sess.finalize_pair(a, h)
             c = bycid[r["cid"]]
             lines.append({"tid": len(lines), "cid": r["cid"], "form": r["form"], "alone": a, "here": h, "ord": bool(c["sc"]["ord"]), "idx": bool(c["sc"]["idx"]),
-                          "data_token_unstable": bool(r.get("data_token_unstable")), "check_name": True, "check_lens": bool(c["sc"]["ord"])})
+                          "data_token_unstable": bool(r.get("data_token_unstable")), "check_name": True, "check_plan": True, "spine_here": [], "spine_alone": [], "check_lens": bool(c["sc"]["ord"])})
     chk.extra["not_picklable"] = unpicklable
     chk.evaluations = len(lines)
     slim = [{k: v for k, v in ln.items() if k not in ("cid", "form", "data_token_unstable")} for ln in lines]
